@@ -7,6 +7,7 @@ import (
 	"sort"
 	"strings"
 	"sync"
+	"sync/atomic"
 	"time"
 
 	"github.com/facebookincubator/dns/dnsrocks/metrics"
@@ -261,9 +262,14 @@ type c19Schedule struct {
 
 const c19Lifetime = 3 * time.Second
 
+// observations that fell between a sample's expiry and its sweep and were checked against bounds only
+var c19Bounded atomic.Int64
+
 // c19RunSchedule executes one timed schedule against a real sliding window (verif constructor)
 // and returns violations, the number of conclusive and skipped observations.
 func c19RunSchedule(s c19Schedule, base int64) (viol []string, conclusive, skipped int) {
+	bounded := 0
+	defer func() { c19Bounded.Add(int64(bounded)) }()
 	st := metrics.NewStats()
 	// three sampled metrics live in the one Stats (the server registers several): each gets the same timing and its
 	// own values, and each is checked on its own - what is exported for one must not depend on the others
@@ -306,7 +312,7 @@ func c19RunSchedule(s c19Schedule, base int64) (viol []string, conclusive, skipp
 		got := st.Get()
 		oe := time.Since(t0)
 		// classify every sample added so far
-		var must []int64
+		var must, maybe []int64
 		either := false
 		for _, a := range adds {
 			switch {
@@ -316,10 +322,37 @@ func c19RunSchedule(s c19Schedule, base int64) (viol []string, conclusive, skipp
 				// expired, and a cleaner tick (1 s) plus 1 s slack has passed: must be gone
 			default:
 				either = true
+				maybe = append(maybe, a.value)
 			}
 		}
 		if either {
+			// the reported set S is not determined (must <= S <= must+maybe), but it is bounded: every exported
+			// figure is computed from values that were added and may still be there, so
+			// min(must+maybe) <= min <= min(must), max(must) <= max <= max(must+maybe), min <= avg <= max,
+			// and with no must-sample either all three are 0 or all lie within the maybe-samples' range
 			skipped++
+			all := append(append([]int64{}, must...), maybe...)
+			sort.Slice(all, func(i, j int) bool { return all[i] < all[j] })
+			sort.Slice(must, func(i, j int) bool { return must[i] < must[j] })
+			for k, key := range keys {
+				off := int64(k) * 1000000
+				mn, mx, avg := got[key+".min"], got[key+".max"], got[key+".avg"]
+				lo, hi := all[0]+off, all[len(all)-1]+off
+				bad := false
+				if len(must) == 0 && mn == 0 && mx == 0 && avg == 0 {
+					continue
+				}
+				if mn < lo || mx > hi || mn > mx || avg < mn || avg > mx {
+					bad = true
+				}
+				if len(must) > 0 && (mn > must[0]+off || mx < must[len(must)-1]+off) {
+					bad = true
+				}
+				if bad {
+					viol = append(viol, fmt.Sprintf("%s at %v: metric %s has live samples %v+%d and expired-but-maybe-not-yet-swept samples %v+%d, but exported min/max/avg = %d/%d/%d lie outside what any set between the two can produce (a value that was never added, or a live sample missing)", s.Name, os.Round(time.Millisecond), key, must, off, maybe, off, mn, mx, avg))
+				}
+			}
+			bounded++
 			continue
 		}
 		conclusive++
@@ -362,6 +395,9 @@ func c19Schedules(thorough bool, rng *rand.Rand) []c19Schedule {
 		{Name: "two-waves", AddsAt: ms(0, 100, 200, 5300, 5400, 5500), ObsAt: ms(300, 2900, 5600, 7000, 8200, 11000)},
 		// burst, silence until all gone, then a new sample
 		{Name: "burst-gap", AddsAt: ms(0, 10, 20, 30, 5600), ObsAt: ms(50, 2900, 5500, 5700, 8000, 11000)},
+		// exports that land between a sample's expiry (3 s) and the cleaner tick that sweeps it (at most 1 s later), while a
+		// younger sample is live: only bounds can be checked there (see the 'either' branch)
+		{Name: "expiry-gap", AddsAt: ms(0, 40, 2500), ObsAt: ms(2900, 3100, 3250, 3400, 3550, 3700, 3850, 4000, 4150, 6800)},
 	}
 	if thorough {
 		for i := 0; i < 37; i++ {
@@ -409,6 +445,7 @@ func c19Window(r *report.Run) {
 		}(i, s)
 	}
 	wg.Wait()
+	r.Count("c_window_observations_in_expiry_gap_checked_against_bounds", c19Bounded.Load())
 }
 
 // ---- (b) counters under concurrency (race build, child) ----
@@ -489,7 +526,7 @@ func c19CountersWorker(args []string) int {
 }
 
 func runC19(r *report.Run) {
-	r.SetRule("(a) generated and hostile queries on generated databases of every layout (CDB, RocksDB v1/v2; cache on and off) with recording implementations of the public Stats and Logger interfaces: per query the counter deltas must be DNS_queries +1, its type counter +1, exactly one location-class counter and one of cache hit/missed/expired once the location stage is passed, and nxdomain/refused/nodata/badvers/notauthoritative exactly as the message actually written dictates; Log called exactly once with a message equal to the one written for every composed response, never without a write. plus weighted answers cached for one second and asked before and after they expire (miss, hit, expired, hit - exactly one of the three cache counters per query); (b) 16 goroutines x 1e5 increments on metrics.Stats with a concurrent exporter, sums exact, under the race detector; plus 1 500 rounds of 8 goroutines adding the first samples of a fresh key at the same moment, all of which must be exported. (c) real sliding windows (verif constructor, lifetime 3 s, real clock) fed scripted Add schedules with live and expired samples present at the same cleaner tick, unique non-zero values; each observation classifies every sample from measured monotonic timestamps as must-be-reported / must-be-gone / either, observations with an 'either' sample are skipped; exported min/max/avg must be computed from exactly the must-set. non-trivial = checked query / conclusive observation; distinct by case")
+	r.SetRule("(a) generated and hostile queries on generated databases of every layout (CDB, RocksDB v1/v2; cache on and off) with recording implementations of the public Stats and Logger interfaces: per query the counter deltas must be DNS_queries +1, its type counter +1, exactly one location-class counter and one of cache hit/missed/expired once the location stage is passed, and nxdomain/refused/nodata/badvers/notauthoritative exactly as the message actually written dictates; Log called exactly once with a message equal to the one written for every composed response, never without a write. plus weighted answers cached for one second and asked before and after they expire (miss, hit, expired, hit - exactly one of the three cache counters per query); (b) 16 goroutines x 1e5 increments on metrics.Stats with a concurrent exporter, sums exact, under the race detector; plus 1 500 rounds of 8 goroutines adding the first samples of a fresh key at the same moment, all of which must be exported. (c) real sliding windows (verif constructor, lifetime 3 s, real clock) fed scripted Add schedules with live and expired samples present at the same cleaner tick, unique non-zero values; each observation classifies every sample from measured monotonic timestamps as must-be-reported / must-be-gone / either, observations with an 'either' sample are only checked against bounds (min(must+either) <= min <= min(must), max(must) <= max <= max(must+either), min <= avg <= max; schedule expiry-gap puts nine exports between an expiry and its sweep); otherwise exported min/max/avg must be computed from exactly the must-set. non-trivial = checked query / conclusive observation; distinct by case")
 	r.Assume("(c) uses the real clock because the code has no clock seam; tick 1 s plus 1 s slack before a sample must be gone; skipped observations are counted, never decided")
 	var wg sync.WaitGroup
 	wg.Add(1)
